@@ -106,13 +106,17 @@ class PathEnumerator:
     """Enumerate syntactic paths through `stmts` with respect to `targets` (keys of interest)."""
 
     def __init__(self, stmts: Sequence[ast.stmt], targets: Set[str], fork_all: bool = False,
-                 max_paths: int = MAX_PATHS, track_calls: bool = False, also_fork_on: Callable[[ast.If], bool] = None):
+                 max_paths: int = MAX_PATHS, track_calls: bool = False, also_fork_on: Callable[[ast.If], bool] = None,
+                 slice_deps: bool = True, prune: bool = True):
         self.stmts = list(stmts)
         self.max_paths = max_paths
         self.fork_all = fork_all
         self.track_calls = track_calls
         self.also_fork_on = also_fork_on
-        self.relevant = self._slice(set(targets))
+        self.prune = prune
+        self.dep_filter = (lambda k: '.' not in k) if slice_deps == 'locals' else None
+        self.relevant = self._slice(set(targets)) if slice_deps else set(targets)
+        self._assigned_anywhere = assigned_keys(self.stmts)
 
     # ---- backward slice: which names can influence the targets
     def _slice(self, targets: Set[str]) -> Set[str]:
@@ -140,6 +144,8 @@ class PathEnumerator:
         while changed:
             changed = False
             for ks, reads in all_assigns:
+                if self.dep_filter is not None:
+                    reads = {r for r in reads if self.dep_filter(r)}
                 if ks & rel and not reads <= rel:
                     rel |= reads
                     changed = True
@@ -176,12 +182,12 @@ class PathEnumerator:
                 nxt: List[Path] = []
                 for p in live:
                     b = _binds_for(st.test, p.env)
-                    a = p.fork()
-                    a.conds.append((st.test, True, b))
-                    c = p.fork()
-                    c.conds.append((st.test, False, b))
-                    nxt.extend(self._walk(st.body, [a], done))
-                    nxt.extend(self._walk(st.orelse, [c], done))
+                    for pol, branch in ((True, st.body), (False, st.orelse)):
+                        a = p.fork()
+                        a.conds.append((st.test, pol, b))
+                        if self.prune and not feasible(a.conds, self._assigned_anywhere):
+                            continue
+                        nxt.extend(self._walk(branch, [a], done))
                 live = nxt
             elif isinstance(st, (ast.Assign, ast.AnnAssign, ast.AugAssign)):
                 for p in live:
@@ -316,6 +322,47 @@ def expand_def(d: Def, only=None, depth: int = 6) -> Optional[ast.AST]:
     if d is None or d.expr is None:
         return None
     return expand(d.expr, d.binds, only, depth)
+
+
+def _literals(test: ast.AST, pol: bool):
+    """Decompose a guard into (atom text, polarity) literals that must all hold (conjunctions only)."""
+    if isinstance(test, ast.UnaryOp) and isinstance(test.op, ast.Not):
+        return _literals(test.operand, not pol)
+    if isinstance(test, ast.BoolOp):
+        if (isinstance(test.op, ast.And) and pol) or (isinstance(test.op, ast.Or) and not pol):
+            out = []
+            for v in test.values:
+                out.extend(_literals(v, pol))
+            return out
+        return []
+    if isinstance(test, ast.Compare) and len(test.ops) == 1 and isinstance(test.comparators[0], ast.Constant) \
+            and isinstance(test.comparators[0].value, bool) and isinstance(test.ops[0], (ast.Eq, ast.Is, ast.NotEq, ast.IsNot)):
+        same = isinstance(test.ops[0], (ast.Eq, ast.Is))
+        val = test.comparators[0].value
+        return [(norm(test.left), pol if (same == val) else not pol)]
+    return [(norm(test), pol)]
+
+
+def feasible(conds, assigned: Set[str] = frozenset()) -> bool:
+    """Syntactic consistency: the same guard text cannot hold with both polarities on one path (only for guards
+    over names that are never assigned in the analysed body).  Sound pruning; no arithmetic reasoning."""
+    seen: Dict[str, bool] = {}
+    for c in conds:
+        for txt, pol in _literals(c[0], c[1]):
+            if names_read_text(c[0]) & assigned:
+                continue
+            if txt in seen and seen[txt] != pol:
+                return False
+            seen[txt] = pol
+    return True
+
+
+def names_read_text(node: ast.AST) -> Set[str]:
+    out = set()
+    for k in names_read(node):
+        out.add(k)
+        # a flag like self.X.Valid is 'assigned' if self.X.Valid is assigned
+    return out
 
 
 def cond_text(conds) -> str:
